@@ -81,6 +81,15 @@ TABLE = {
             "All (size, capacity, inline/heap) states with size <= 5 (quick) / 8 (thorough) for int, a class type and std::string, N in {0,2,3}, std::allocator and a stateful allocator: printer to_string/children vs size()/capacity()/iteration, iterators print the referenced element; natvis paths resolve to the same fields."),
 }
 
+NOTES = {
+    "C08": "Trusted base: the constant evaluators of g++ 12 and clang++ 14 (they are the oracle for UB / lifetime / leaks), the constexpr interpreter engine/ce.hpp, the svmc emitters. Fault-free edges only (exceptions cannot be injected in constant evaluation); std::allocator; bounds of the emitting graphs are in the evidence.",
+    "C16": "Trusted base: std::vector's comparison operators (libstdc++ 12) as oracle, the table driver engine/cmp_main.cpp. Length bound 5 (quick) / 6 (thorough) over a 3-letter alphabet; comparison is data independent beyond ==, < / <=> of elements.",
+    "C17": "Trusted base: the harness and the two compilers; compiler/standard pairs that fail the toolchain probe (std::is_constant_evaluated() true at run time: clang++ 14 -std=c++2b) are excluded and named in the evidence. Element-operation counts are informational, the gating records are contents, sizes, capacities, returns, exceptions.",
+    "C18": "Trusted base: README.md conditions transcribed once into tools/grids.py:c18_oracle; the harness for the dynamic part. is_always_equal availability per standard is read from the build itself.",
+    "C19": "Trusted base: g++ 12 on x86-64 (System V ABI) for sizeof/alignof; the oracle in tools/grids.py:c19_oracle is written independently of default_buffer_size. Two classes of grid points are known findings (K1, K3).",
+    "C20": "Trusted base: gdb 13.1 + its Python API, g++ debug info. Visual Studio is not available: the natvis file is checked for member-path resolution and field identity only (paths extracted from the XML, evaluated by a -fno-access-control translation unit on every state).",
+}
+
 ENGINE_OF = {p: "svmc" for p in TABLE}
 ENGINE_OF.update({"C16": "tables+svmc", "C19": "grid", "C18": "grid+svmc", "C13": "svmc+grid", "C08": "svmc+ce", "C17": "svmc", "C20": "gdbdrv"})
 
@@ -101,7 +110,7 @@ def main():
                 "replay_cmd_template": "python3 tools/check.py --replay {path}",
                 "engine": ENGINE_OF.get(pid, "svmc"),
                 "level_claimed": {"category": level, "text": text, "design_ref": "DESIGN.md section " + ref},
-                "level_note": SVMC_NOTE,
+                "level_note": NOTES.get(pid, SVMC_NOTE),
                 "technique": technique,
             })
         else:
